@@ -142,26 +142,38 @@ def sc_inherit(rng):
 
     Harness events of both threads are ordered by one global sequence counter (only one thread runs at a time, so
     the counter is a total order; the scheduler clock only ticks at operation boundaries and cannot order two
-    events inside one tick).  A timeline entry is written AFTER the parent's change took effect."""
+    events inside one tick).  Every change of the parent's current handler is bracketed: a "pre" event is written
+    before the change starts, a "post" event after it took effect.  A handler may be current from the "pre" event of
+    the change that installs it until the "post" event of the change that replaces it."""
     import itertools as _it
 
     seq = _it.count()
-    timeline = [(next(seq), "TypeError")]  # (sequence number, tag): T1 tag current in the parent once this entry is written
+    changes = []  # [pre-seq, post-seq or None, tag]
     got = {}
     holder = {}
+
+    def pre(tag):
+        changes.append([next(seq), None, tag])
+
+    def post():
+        changes[-1][1] = next(seq)
+
+    pre("TypeError")
+    post()
 
     def parent(s, me):
         holder["thread"] = threading.current_thread()
         rt.current_runtime()
-        timeline.append((next(seq), "TypeError"))
         s.op(me)
         for tag in ("a", "b"):
+            pre(tag)
             with rt.handle(T1, tagger(tag)):
-                timeline.append((next(seq), tag))
+                post()
                 s.op(me)
                 ask(T1)
                 s.op(me)
-            timeline.append((next(seq), "TypeError"))
+                pre("TypeError")
+            post()
             s.op(me)
 
     def child(s, me):
@@ -178,25 +190,13 @@ def sc_inherit(rng):
         if "tag" not in got:
             return None
         t_call, t_ret = got["interval"]
-        # what the parent may have had current at some moment of the call: the state written last before the call
-        # started, every state written during it, and the first one written after it returned (its change may have
-        # taken effect while the call was still running)
         allowed = set()
-        last = None
-        after = None
-        for n, tag in timeline:
-            if n < t_call:
-                last = tag
-            elif n < t_ret:
+        for i, (p0, _p1, tag) in enumerate(changes):
+            nxt = changes[i + 1][1] if i + 1 < len(changes) else None  # replaced for sure once the next change's post is written
+            if p0 <= t_ret and (nxt is None or nxt >= t_call):
                 allowed.add(tag)
-            elif after is None:
-                after = tag
-        if last is not None:
-            allowed.add(last)
-        if after is not None:
-            allowed.add(after)
         if got["tag"] not in allowed:
-            return f"inherit() between events {t_call}..{t_ret} gave handler {got['tag']!r}; the parent had {sorted(allowed)} current in that window (timeline {timeline})"
+            return f"inherit() between events {t_call}..{t_ret} gave handler {got['tag']!r}; the parent had {sorted(allowed)} current in that window (changes [pre, post, handler]: {changes})"
         if got["t0"] != "default0":
             return f"inherited runtime lost the default handler: {got['t0']!r}"
         return None
